@@ -37,7 +37,9 @@ def check(run):
     if len(h1) > 2500:
         h1 = h1[:: len(h1) // 2500 + 1]
     run.log("%d QoS 1 scripts re-using one identifier with an injected failure" % len(h1))
-    scns = [inboundlib.scenario(h, [1, 2], shape=[0, 4, 1, 0, 2, 4, 3][i % 7]) for i, h in enumerate(hs)] + [inboundlib.scenario(h, [1, 2], dupall=True) for h in h1]
+    # round 8: every fifth script runs "dynamic" (every topic published once before anybody subscribes: what a node remembers about a topic
+    # stems from a time without subscribers)
+    scns = [inboundlib.scenario(h, [1, 2], shape=[0, 4, 1, 0, 2, 4, 3][i % 7], dynamic=(i % 5 == 1)) for i, h in enumerate(hs)] + [inboundlib.scenario(h, [1, 2], dupall=True) for h in h1]
     # every seventh scenario: the nodes talk through the project's own rpc package (TLS, interceptors) instead of a bare connection
     for i, s_ in enumerate(scns):
         if i % 7 == 3:
